@@ -166,7 +166,14 @@ func (a *Aggregator[VR, GE, S, M]) Aggregate(
 
 	var bigR GE
 	if a.IsCosigning() {
-		bigR = a.bigR
+		// The cosigner's state holds the uncorrected sum of the nonce commitments, whereas every
+		// partial response was computed with the parity-corrected nonce. Apply the same correction
+		// to the aggregate so that it equals the sum of the corrected partial commitments.
+		var err error
+		bigR, err = a.variant.CorrectPartialNonceCommitmentParity(a.bigR, a.bigR)
+		if err != nil {
+			return nil, errs.Wrap(err).WithMessage("failed to correct aggregated nonce commitment parity")
+		}
 	} else {
 		bigR = iterutils.Reduce(slices.Values(partialSignatures.Values()),
 			a.group.OpIdentity(), func(acc GE, x *lindell22.PartialSignature[GE, S]) GE { return acc.Op(x.Sig.R) },
